@@ -425,7 +425,7 @@ fn cluster_text(rng: &mut Rng, tag: &str, outer: &[String], nest: usize) -> (Str
             };
             refs.push(names[r].clone());
         }
-        if !outer.is_empty() && rng.chance(1, 4) {
+        if !outer.is_empty() && rng.chance(1, 2) {
             refs.push(outer[rng.below(outer.len())].clone());
         }
         let param = format!("{tag}p{i}");
@@ -492,6 +492,17 @@ fn sum_of(refs: &[String], param: &str) -> String {
 
 fn cluster_program(rng: &mut Rng) -> String {
     let nest = rng.below(3);
+    if rng.chance(1, 5) {
+        // the group sits under lambda binders whose parameters its definitions mention, and the
+        // whole thing is applied: `((x : int) => (a = x + b; b = 2 + x; a)) 1`
+        let k = rng.range(1, 3);
+        let params: Vec<String> = (0..k).map(|i| format!("lp{i}")).collect();
+        let (text, names) = cluster_text(rng, "d", &params, nest.min(1));
+        let binders: String = params.iter().map(|p| format!("({p} : int) => ")).collect();
+        let args: String = params.iter().map(|_| format!(" {}", rng.below(9))).collect();
+        let result = names[rng.below(names.len())].clone();
+        return format!("({binders}(\n{text}{result}\n)){args}\n");
+    }
     let (mut text, names) = cluster_text(rng, "d", &[], nest);
     if rng.chance(1, 3) {
         // a second, independent cluster in the body position
@@ -1233,7 +1244,29 @@ fn alpha_variants_program(rng: &mut Rng) -> String {
 
 /// More shapes that seeded changes needed (kept together so that the reason stays visible).
 fn targeted_program(rng: &mut Rng) -> String {
-    match rng.below(4) {
+    match rng.below(5) {
+        4 => {
+            // definitions applied (under a lambda, so that the definition-order check accepts it)
+            // *before* their own unannotated definition is checked, i.e. while their type is still
+            // a hole, and again afterwards, when they have turned out not to be functions; many
+            // such triples over abstract types (state that is keyed by a type which is later
+            // resolved is only consulted on these)
+            let n = rng.range(2, 16);
+            let mut lines: Vec<String> = vec![];
+            for i in 1..=n {
+                lines.push(format!("(t{i} : type) =>"));
+            }
+            for i in 1..=n {
+                lines.push(format!("(v{i} : t{i}) =>"));
+            }
+            for i in 1..=n {
+                lines.push(format!("  a{i} = (u : int) => b{i} u"));
+                lines.push(format!("  b{i} = {}", if rng.chance(3, 4) { format!("v{i}") } else { "true".to_owned() }));
+                lines.push(format!("  c{i} = (u : int) => b{i} u"));
+            }
+            lines.push("  0".to_owned());
+            lines.join("\n") + "\n"
+        }
         0 => {
             // a conversion check that has to unfold a chain of 3-6 definitions, and fails
             // (conversion re-unfolds at every level, so the cost is exponential in the length)
